@@ -369,7 +369,9 @@ static void op_admin(World *w, Buf *b) {
         Buf l = {0}; b_2b(&l, priv, prl); b_2b(&l, pub, pul);
         uint32_t parent = par->h;
         cmd_begin(b, ST_SESSIONS, CC_Load); b_u32(b, parent); auth_pw_s(b, pauth); b_bytes(b, l.p, l.n); b_free(&l);
+        long create_stores = w->last_stores;
         Rsp r2 = w_run(w, b);
+        w->last_stores += create_stores;      /* callers look at the whole operation: what Create handed to storage counts */
         if (r2.rc == 0 && r2.len >= 14) { WObj *o = &w->obj[w->nobj++]; o->h = g32(r2.p + 10); o->kind = kind == 0 ? 1 : kind == 1 ? 2 : 0; o->hier = par->hier; o->persistent = 0; }
     }
 }
